@@ -299,10 +299,37 @@ def rnd_leaf(rnd):
     return [rnd.choice(['C', 'C', 'C', 'F']), [rnd_frac(rnd, small) for _ in range(n)]]
 
 
+def retag(rnd, e, p=0.25, top=True):
+    """a copy of e over the SAME leaves and numeric operands in which the top GF-GF operator is another one and every deeper
+    one is another one with probability p: (a + b) * c -> (a + b) + c, (a * b) + c, ..."""
+    t = e[0]
+    if t in BIN:
+        op = rnd.choice([o for o in BIN if o != t]) if top or rnd.random() < p else t
+        return [op, retag(rnd, e[1], p, False), retag(rnd, e[2], p, False)]
+    if t in NUM or t == 'dx':
+        return [t, retag(rnd, e[1], p, top), e[2]]
+    if t == 'dx1':
+        return [t, retag(rnd, e[1], p, top)]
+    return e
+
+
+def rnd_twin(rnd, d):
+    """the same two operands combined by two DIFFERENT operators in one program, [op3, [op1, a, b], [op2, a, b]]: with
+    sharing on, a and b are the very same two objects under both operators (s = f + g; p = f * g; s * p)"""
+    a, b = rnd_expr(rnd, max(0, d - 2)), rnd_expr(rnd, rnd.randrange(0, max(1, d - 1)))
+    if rnd.random() < 0.15:
+        b = a
+    one = [rnd.choice(BIN), a, b]
+    two = retag(rnd, one)
+    return [rnd.choice(['+', '*', '*', '-']), one, two]
+
+
 def rnd_expr(rnd, d):
     if d == 0 or rnd.random() < 0.12:
         return rnd_leaf(rnd)
     k = rnd.random()
+    if k < 0.06 and d >= 2:
+        return rnd_twin(rnd, d)
     if k < 0.50:
         op = rnd.choice(['+', '-', '*', '*'])
         # one deep side, the other side of random depth: deep but not always bushy
@@ -374,6 +401,7 @@ def queries(rnd, e, top_dx=None):
 # orders of the further queries g.dx(k)[i] put to the top object after gf[i] and gf(x), in this order
 DXQ_PLANS = [[1, 2, 1], [1, 2, 1], [2, 1, 2], [1, 0, 1], [3, 1], [2, 2]]
 DXQ_P = 0.35
+TWIN_P = 0.12       # random programs that are a twin at the top (rnd_twin), always with sharing on
 
 
 class H(Harness):
@@ -392,7 +420,10 @@ class H(Harness):
             'depth <= 3 over 2 unary and 2 binary operators and depth <= 2 with two leaf fillings), random programs to depth 6 '
             '(thorough 7); coefficient FUNCTIONS whose last non-zero coefficient is at index 298, 299, 300 (= the last term of the default '
             '301-term loop), bare, differentiated and scaled, at x = 1 and -1; one object differentiated to two orders (dx(k) of '
-            'x + x*y, y*x - x, x*(x + y) with x one shared object); asked: gf[i] for i in {0, 1, deg, deg+1, 3 random up to deg+2} and '
+            'x + x*y, y*x - x, x*(x + y) with x one shared object); the same two operand OBJECTS under two different operators in one '
+            'program, [op3, [op1, a, b], [op2, a, b]] (every ordered pair op1 != op2 and every op3 over 7 operand pairs, also two levels '
+            'deep, differentiated, and with dx(k) plans; 6% of the random binary nodes and 12% of the random programs, these with '
+            'sharing on); asked: gf[i] for i in {0, 1, deg, deg+1, 3 random up to deg+2} and '
             'gf(x) at 2 of 8 rational points, and on 35% of the random cases and a fixed block further gf.dx(k)[i] on the SAME top '
             'object for a sequence of orders such as 1, 2, 1; a case is non-trivial when the program contains a product or a '
             'derivative; distinct by program')
@@ -412,11 +443,12 @@ class H(Harness):
         self.rejected = 0
         while len(out) < n:
             d = rnd.choice([2, 3, 3, 4, 4, 5, 5] + [dmax] * 3)
-            e = rnd_expr(rnd, d)
+            twin = rnd.random() < TWIN_P
+            e = rnd_twin(rnd, rnd.choice([2, 2, 3, 3, 4])) if twin else rnd_expr(rnd, d)
             if rnd.random() < 0.5:      # a derivative on top: gf.dx(k)[i], gf.dx(k)(x)
                 e = ['dx', e, rnd.choice([1, 1, 2, 3, 5])]
             idx, pts = queries(rnd, e)
-            share = rnd.random() < 0.5       # structurally equal sub-expressions are one shared object
+            share = twin or rnd.random() < 0.5       # structurally equal sub-expressions are one shared object
             case = {'expr': e, 'idx': idx, 'pts': pts, 'share': share}
             if not self._accept(case):
                 # ask less before giving up on a deep program
@@ -425,7 +457,7 @@ class H(Harness):
                     self.rejected += 1
                     continue
             # several dx(k) on the ONE top object (the memo of dx is keyed by instance AND order), when affordable
-            if rnd.random() < DXQ_P:
+            if rnd.random() < (0.6 if twin else DXQ_P):
                 more = dict(case, dxq=rnd.choice(DXQ_PLANS))
                 if self._accept(more):
                     case = more
@@ -487,6 +519,27 @@ class H(Harness):
             for e in (['*', x, x], x):
                 for plan in ([1, 2, 1], [2, 0, 3, 2]):
                     out.append({'expr': e, 'idx': list(range(0, 6)), 'pts': ['1', '-1/2'], 'share': True, 'dxq': plan})
+        # the SAME two operand objects under two DIFFERENT operators in one program (s = a + b; p = a * b; then s * p, p - s, ...):
+        # every ordered pair of distinct operators (the one built and asked first, the one asked second), under every operator
+        # on top, bare, differentiated, and with several dx(k) asked of the one top object
+        f, g, h = ['C', ['1', '2', '3']], ['C', ['4', '5/2']], ['F', ['1/2', '0', '-3', '2']]
+        operands = ((f, g), (h, g), (f, f), (['+', f, g], h), (['*', f, h], g), (['dx1', h], f), (['*n', f, '-3/2'], h))
+        for n_, (a, b) in enumerate(operands):
+            for op1, op2 in itertools.permutations(BIN, 2):
+                for op3 in BIN:
+                    e = [op3, [op1, a, b], [op2, a, b]]
+                    out.append({'expr': e, 'idx': list(range(0, 6)), 'pts': ['1', '-1/2'], 'share': True})
+                    if op3 != '-':
+                        out.append({'expr': e, 'idx': list(range(0, 5)), 'pts': ['2'], 'share': True, 'dxq': DXQ_PLANS[(n_ + len(out)) % len(DXQ_PLANS)]})
+                    if n_ < 4:
+                        out.append({'expr': ['dx', e, 1 + (n_ + len(out)) % 2], 'idx': list(range(0, 5)), 'pts': ['-2/3'], 'share': True})
+            # two levels: ((a + b) + g') and ((a * b) * g'), ((a + b) * g') and ((a * b) + g') over the same three objects
+            c = ['C', ['0', '1', '1/3']]
+            for (o1, o2), (q1, q2) in ((('+', '+'), ('*', '*')), (('+', '*'), ('*', '+')), (('*', '+'), ('+', '+')), (('-', '*'), ('+', '*'))):
+                for op3 in ('+', '*'):
+                    e = [op3, [o2, [o1, a, b], c], [q2, [q1, a, b], c]]
+                    out.append({'expr': e, 'idx': list(range(0, 6)), 'pts': ['1', '-1/2'], 'share': True})
+                    out.append({'expr': e, 'idx': list(range(0, 4)), 'pts': ['1/2'], 'share': True, 'dxq': [1, 2, 1]})
         out = [c for c in out if self._accept(c) or max_len(c['expr']) > 100]
         return out
 
